@@ -220,6 +220,13 @@ func (c *Conn) Written() []byte {
 	return append([]byte(nil), c.recOut...)
 }
 
+// WrittenLen returns the number of bytes accepted by Write so far.
+func (c *Conn) WrittenLen() int {
+	c.mu.Lock()
+	defer c.mu.Unlock()
+	return len(c.recOut)
+}
+
 // WriteMarks returns the cumulative length of Written after each Write call.
 func (c *Conn) WriteMarks() []int {
 	c.mu.Lock()
